@@ -1,12 +1,13 @@
 /-
   Deep embedding of the context code C08 is about, as printed by the extractor (`harness/cmd/extract/c08.go`) from
   message/router.go and message/router_context.go of this run:
-    - `handler.addHandlerContext`: the sequence of `if h.<field> != "" { ctx = context.WithValue(ctx, <key>, h.<field>) }`
+    - `handler.addHandlerContext`: the sequence of `ctx = context.WithValue(ctx, <key>, h.<field>)` statements, each
+      with the `if h.<field> != ""` guard around it when the source has one (the code before fix 5846d09 had)
     - the five accessors `…FromCtx`: which key constant each one reads
     - the string value of every key constant (two constants with the same value would be the same context key)
   with an interpreter over a Go-like context (list of key-string/value pairs, innermost first).  The tie theorem
   (Props/C08Tie.lean) states that reading accessor `a` after `addHandlerContext` gives the handler's field `a` when
-  it is non-empty and the previous reading otherwise – which is what `Wm.Route.addHandlerContext`/`ctx5` model.
+  – for every previous context – which is what `Wm.Route.addHandlerContext`/`ctx5` model.
 -/
 import WmModel.Route
 namespace Wm.RouteGo
@@ -19,7 +20,7 @@ inductive Fld | name | publisherName | subscriberName | subscribeTopic | publish
 /-- one statement of `addHandlerContext`'s loop body -/
 structure SetStmt where
   fld     : Fld        -- h.<fld> is the value
-  guardBy : Fld        -- `if h.<guardBy> != ""` around it
+  guardBy : Option Fld -- `some g`: `if h.<g> != ""` around it; `none`: unconditional
   key     : String     -- string value of the key constant used
   deriving Repr
 
@@ -41,7 +42,10 @@ def GoCtx.lookup : GoCtx → String → String
 
 def applySets (h : HCfg) : List SetStmt → GoCtx → GoCtx
   | [], c => c
-  | s :: rest, c => applySets h rest (if fldVal h s.guardBy ≠ "" then (s.key, fldVal h s.fld) :: c else c)
+  | s :: rest, c =>
+    applySets h rest (match s.guardBy with
+      | none => (s.key, fldVal h s.fld) :: c
+      | some g => if fldVal h g ≠ "" then (s.key, fldVal h s.fld) :: c else c)
 
 def keyOfAcc (code : CtxCode) (a : Key) : Option String :=
   match code.accessors.find? (·.1 = a) with
